@@ -384,7 +384,13 @@ def multiprocessing_run(
                     one_dim_array = input_arrays[dim]
                     run_indicies.append(find_nearest(one_dim_array, dim_input))
 
-                previous_run_data.append((run_num, run_indicies, case_result))
+                # Return the same record type as freshly executed cases (with the arrays loaded into a plain dict).
+                previous_run_data.append(
+                    MultiprocessingOutput(
+                        case_number=run_num, input_index=tuple(run_indicies),
+                        result={key: case_result[key] for key in case_result.files}
+                        )
+                    )
 
             # Combine with any new results
             mp_results = mp_results + previous_run_data
